@@ -16,7 +16,7 @@ func hbTimeout(h time.Duration) time.Duration {
 	return t
 }
 
-var c03Kinds = []string{"err:timeout", "err:noresp", "err:closed", "hang", "lost", "partition", "replaced", "deleted", "expired"}
+var c03Kinds = []string{"err:timeout", "err:noresp", "err:closed", "hang", "lost", "lateack", "partition", "replaced", "deleted", "expired"}
 
 func scnHBFault(kname string, k kfn, i int, kind string) *Scenario {
 	s := k(&Scenario{Name: fmt.Sprintf("hbfault/%s/attempt%d/%s", kname, i, kind)})
@@ -93,7 +93,7 @@ func init() {
 	oracles["C03"] = oracleC03
 	props["C03"] = &propDef{
 		Level:  "fault_enumeration",
-		Rule:   "fault position x fault kind x timing configuration: the fault begins at heartbeat attempt i in 1..5; kinds = immediate error (nats timeout / no responders / connection closed), hang until the library's time-out, write applied but acknowledgement lost, permanent partition, record replaced by another id, record deleted, record expired; configurations K1 (H=200ms,TTL=600ms), K2 (200ms,1s), K3 (4s,12s: time-out H/2); on top of each, every execution with <= D latency/placement deviations; non-trivial = the leader was demoted after the fault; distinct = distinct observation-trace hash",
+		Rule:   "fault position x fault kind x timing configuration: the fault begins at heartbeat attempt i in 1..5; kinds = immediate error (nats timeout / no responders / connection closed), hang until the library's time-out, write applied but acknowledgement lost, write applied and acknowledged 30 ms after the time-out with a hanging store afterwards, permanent partition, record replaced by another id, record deleted, record expired; configurations K1 (H=200ms,TTL=600ms), K2 (200ms,1s), K3 (4s,12s: time-out H/2); on top of each, every execution with <= D latency/placement deviations; non-trivial = the leader was demoted after the fault; distinct = distinct observation-trace hash",
 		Assume: []string{"single leader, no competing instance (a competitor only adds earlier causes of demotion)", "reference store returns the real NATS error values"},
 		Plan:   c03Plan,
 	}
@@ -231,7 +231,9 @@ func oracleC03(r *Result) ([]Violation, bool) {
 	tStart := tProm
 	lastOK := -1
 	for i, op := range hb {
-		if op.Answered && op.resErr == nil && op.Fault == "" {
+		// (an acknowledgement scripted to be late that the explorer delivered in time
+		// after all is an ordinary success)
+		if op.Answered && op.resErr == nil && (op.Fault == "" || (op.Fault == "lateack" && op.TAnswer <= op.TIssue+T)) {
 			tStart = op.TIssue
 			lastOK = i
 		}
